@@ -75,6 +75,17 @@ def _cases(R, G, t, n):
             fl = (fl | G.MATCHBASE) & ~(G.IGNORECASE | G.NODIR | G.FOLLOW)
             if R.random() < 0.5:
                 fl &= ~(G.GLOBSTAR | G.GLOBSTARLONG)
+        if tmpl is None and R.random() < 0.08:
+            # only exclusions + NEGATEALL: the IMPLIED inclusion pattern is `**` — under GLOBSTARLONG it ignores FOLLOW like any written `**`
+            # (added after seeded change C06j: the implied pattern became `***` under GLOBSTARLONG|FOLLOW)
+            p = R.choice(['!zz-none*', '!*.none', '!**/zz-none'])
+            fl = G.NEGATE | G.NEGATEALL | G.GLOBSTAR | (G.DOTGLOB if R.random() < 0.3 else 0)
+            if R.random() < 0.7:
+                fl |= G.GLOBSTARLONG | G.FOLLOW
+            elif R.random() < 0.5:
+                fl |= G.GLOBSTARLONG
+            out.append(K.Case(p, fl, None, R.choice(['root_dir', 'cwd', 'dir_fd'])))
+            continue
         follows = bool(fl & G.FOLLOW) or (bool(fl & G.GLOBSTARLONG) and '***' in p)
         if t.cyclic and follows:
             # never walk a cycle with FOLLOW / `***` (it does not terminate): keep a few such
@@ -214,6 +225,16 @@ def run(ck: Check) -> int:
                             found.append(Failing(f'{p!r} was listed through the symlink {"/".join(comps[:j])!r} at a position matched by **',
                                                  c.to_json(G, t), 'no listing through a link in a ** position', p,
                                                  'wcmatch/glob.py:687-689'))
+        # (b') only exclusions + NEGATEALL: the implied `**` — no listed directory may lie behind a link
+        if c.flags & G.NEGATEALL and c.flags & G.NEGATE and c.pats.startswith('!') and '|' not in c.pats:
+            for p in scans:
+                comps = [x for x in p.split('/') if x]
+                stats['link_position_checks'] += 1
+                for j in range(1, len(comps) + 1):
+                    if os.path.islink(os.path.join(t.root, *comps[:j])):
+                        found.append(Failing(f'{p!r} was listed through the symlink {"/".join(comps[:j])!r} by the pattern implied by NEGATEALL (`**`)',
+                                             c.to_json(G, t), 'no listing through a link in a ** position', p, 'wcmatch/glob.py:Glob._parse_patterns (NEGATEALL default)'))
+                        break
         # (c) a written link is followed
         if len(segs) >= 2 and not G.is_magic(segs[0], flags=c.flags) and segs[0] not in ('.', '..'):
             first = os.path.join(t.root, segs[0])
